@@ -99,6 +99,10 @@ type PartialCert struct {
 // NewPartialCert returns a new partial certificate.
 func NewPartialCert(signature QuorumSignature, blockHash Hash) PartialCert {
 	var signer ID
+	if signature == nil {
+		// e.g. a vote received without a (decodable) signature; it will not verify
+		return PartialCert{signer, signature, blockHash}
+	}
 	signature.Participants().RangeWhile(func(i ID) bool {
 		signer = i
 		return false
